@@ -360,6 +360,9 @@ func c09(r *rep.Run) {
 		r.Note(w, sprintf("%s n=%d", j.shape, j.n))
 		var src string
 		var leaves int
+		if j.depth > 0 && j.n < 2*j.depth+8 {
+			return // the chain alone needs more nodes than this member has
+		}
 		if j.depth == -1 {
 			src, leaves = c9Pairs(j.n)
 		} else if j.depth == 0 {
